@@ -181,11 +181,17 @@ def exec_case(ctx, r, exhaustive=False):
     try:
         # the judged calls may come after a history on the caller's same object (vf/history.py):
         # Xarg holds exactly X's values and X's shape (penalties depend on the training shape)
-        hist = r.get("history") if r.get("history") in ("same_object", "inplace") else None
+        hist = r.get("history") if r.get("history") in ("same_object", "inplace", "reconfigured") else None
         det, Xarg = H.prepare(build(spec), X, hist, r.get("hseed", 0), 2 * msl, r.get("frame"))
         ctx.stat(f"history[{hist}]")
-        y = det.predict(Xarg)
-        scores = np.asarray(det.transform_scores(Xarg), dtype=float).ravel()
+        if r.get("hseed", 0) % 2:
+            # transform_scores FIRST: it must stand on its own (the history may have left the scores
+            # of other values with the same index behind)
+            scores = np.asarray(det.transform_scores(Xarg), dtype=float).ravel().copy()
+            y = det.predict(Xarg)
+        else:
+            y = det.predict(Xarg)
+            scores = np.asarray(det.transform_scores(Xarg), dtype=float).ravel()
     except RuntimeError:
         I.stop_trace()
         ctx.stat("documented_runtimeerror")
